@@ -33,6 +33,17 @@ CHECKS = {
             "C12_accounting (free + live + lost-to-padding = capacity over every history, lost < alignment per aligned request).",
             "Zero-size regions are invisible to byte-level statements (coalescing is stated for a positive combined size).",
             "7/C12"),
+    "C14": ("Lean 4 proof: loop invariant of the worklist topological sort (counts of unprocessed parents, no duplicates, "
+            "positional order), completeness by induction on an acyclicity rank; differential tie on random graphs and real class "
+            "universes; independent DFS/position oracle and real add_kernels builds",
+            "Kernel-checked theorems over the executable model of topological_sort for every closed dependency source "
+            "(any multiplicity of edges, any insertion order): C14_fuel (the loop terminates within keys+1 rounds), C14_once "
+            "(no duplicates, exactly the classes of the source), C14_order (every dependency strictly before its dependent), "
+            "C14_cycle_iff / C14_cycle_reported (the cycle flag is raised exactly for non-acyclic graphs). The tie compares the "
+            "exact order returned by the real topological_sort and by the real sort_classes on generated classes of every kind.",
+            "The closure loop of sort_classes is modelled and tied but the theorems are stated for the closed source it builds; "
+            "`the emitted source compiles` is witnessed by real cffi builds (4 quick / 150 thorough), not proved.",
+            "7/C14"),
 }
 
 NOT_YET = {
